@@ -1630,15 +1630,18 @@ int bufr_apply_op_crefval( BufrDDOp *ddo, BufrDescriptor *cb, BUFR_Template *tmp
          if (ddo->change_ref_val_op > 0)
             {
             EntryTableB *tb1, *tb2;
-            float        value;
+            int32_t      value;
 
-            value = bufr_value_get_float( cb->value );
-
-            if ( !bufr_is_missing_float(value) )
+/*
+ * the operand is a sign and magnitude integer, none of its values means "missing":
+ * -1 (the library's missing integer) is a new reference value of -1
+ */
+            if ( cb->value != NULL )
                {
+               value = bufr_value_get_int32( cb->value );
                if (debug)
                   {
-                  sprintf( errmsg, "%f ", value );
+                  sprintf( errmsg, "%d ", value );
                   bufr_print_debug( errmsg );
                   }
                if (bufr_is_table_b( cb->descriptor ))
